@@ -4,6 +4,7 @@ mod bench;
 mod queue;
 mod seqds;
 mod simcore;
+mod taskeng;
 
 fn main() {
     let args: Vec<String> = std::env::args().collect();
@@ -16,6 +17,7 @@ fn main() {
         "seqds" => seqds::main(&args[2..]),
         "bench" => bench::main(&args[2..]),
         "queue" => queue::main(&args[2..]),
+        "task" => taskeng::main(&args[2..]),
         other => {
             eprintln!("unknown engine {}", other);
             std::process::exit(2);
